@@ -123,6 +123,7 @@ type signAn struct {
 	rep       []signFinding
 	dirty     bool
 	sinksSeen map[*ssa.Function][]string
+	cloArg    map[*ssa.Function][]sg // closures called directly: join of the argument signs
 }
 
 type signFinding struct {
@@ -228,9 +229,83 @@ func cellKey(v ssa.Value) string {
 				return strings.ToLower(m) + "(" + cellKey(core.CallArgs(&x.Call)[0]) + ")"
 			}
 		}
+		// a pointer variable assigned exactly once (possibly captured by closures): its cell
+		if ld, ok := v.(*ssa.UnOp); ok && ld.Op == token.MUL && isBigPtr(ld.Type()) {
+			if st := singleStoreEverywhere(ld.X); st != nil {
+				v = st.Val
+				continue
+			}
+		}
 		break
 	}
 	return core.Canon(v)
+}
+
+// singleStoreEverywhere: addr is a local variable (or a closure's view of one) that is assigned
+// exactly once, counting the function that declares it and every closure that captures it.
+func singleStoreEverywhere(addr ssa.Value) *ssa.Store {
+	var al *ssa.Alloc
+	switch x := addr.(type) {
+	case *ssa.Alloc:
+		al = x
+	case *ssa.FreeVar:
+		// find the binding in the parent
+		fn := x.Parent()
+		idx := -1
+		for i, fv := range fn.FreeVars {
+			if fv == x {
+				idx = i
+			}
+		}
+		if par := fn.Parent(); par != nil && idx >= 0 {
+			for _, b := range par.Blocks {
+				for _, in := range b.Instrs {
+					if mc, ok := in.(*ssa.MakeClosure); ok && mc.Fn == ssa.Value(fn) && idx < len(mc.Bindings) {
+						if a2, ok := mc.Bindings[idx].(*ssa.Alloc); ok {
+							al = a2
+						}
+					}
+				}
+			}
+		}
+	}
+	if al == nil || al.Referrers() == nil {
+		return nil
+	}
+	var stores []*ssa.Store
+	okAll := true
+	var visit func(v ssa.Value)
+	visit = func(v ssa.Value) {
+		if v.Referrers() == nil {
+			return
+		}
+		for _, r := range *v.Referrers() {
+			switch y := r.(type) {
+			case *ssa.Store:
+				if y.Addr == v {
+					stores = append(stores, y)
+				} else {
+					okAll = false
+				}
+			case *ssa.MakeClosure:
+				if f, ok := y.Fn.(*ssa.Function); ok {
+					for bi, bv := range y.Bindings {
+						if bv == v && bi < len(f.FreeVars) {
+							visit(f.FreeVars[bi])
+						}
+					}
+				}
+			case *ssa.UnOp, *ssa.DebugRef:
+			default:
+				okAll = false
+			}
+		}
+	}
+	visit(al)
+	if okAll && len(stores) == 1 {
+		return stores[0]
+	}
+	return nil
 }
 
 func constSign(key string) (sg, bool) {
@@ -329,8 +404,20 @@ func (a *signAn) addReq(fn *ssa.Function, deps uint32, why string) {
 	}
 }
 
+// elemBucket: slices, arrays and pointers to arrays of one element type share a bucket (an
+// append goes through a one-element array).
 func elemBucket(t types.Type) string {
-	return types.Unalias(t).Underlying().String()
+	u := types.Unalias(t).Underlying()
+	if p, ok := u.(*types.Pointer); ok {
+		u = types.Unalias(p.Elem()).Underlying()
+	}
+	switch x := u.(type) {
+	case *types.Slice:
+		return "elem:" + types.Unalias(x.Elem()).String()
+	case *types.Array:
+		return "elem:" + types.Unalias(x.Elem()).String()
+	}
+	return u.String()
 }
 
 // analyse runs the block dataflow of one function.
@@ -520,6 +607,40 @@ func (a *signAn) transfer(fn *ssa.Function, b *ssa.BasicBlock, in ssa.Instructio
 		if callee == nil {
 			return
 		}
+		if callee.Parent() != nil && !closureEscapes(callee) {
+			// a closure called directly: its parameters take the signs of the arguments
+			if a.cloArg == nil {
+				a.cloArg = map[*ssa.Function][]sg{}
+			}
+			cur := a.cloArg[callee]
+			if cur == nil {
+				cur = make([]sg, len(callee.Params))
+				for i := range cur {
+					cur[i] = sgNN
+				}
+				a.cloArg[callee] = cur
+				a.dirty = true
+			}
+			for i, arg := range call.Args {
+				if i >= len(cur) || !(isBigPtr(arg.Type()) || isBigSlice(arg.Type())) {
+					continue
+				}
+				var s2 sg
+				if isBigSlice(arg.Type()) {
+					s2 = a.elemOf2(fn, arg, st, outs, 0)
+				} else {
+					s2 = a.signOf(fn, arg, st, outs, 0)
+				}
+				if rootFn(fn) != rootFn(callee) {
+					s2.deps = 0
+					s2.any = true // dependencies only make sense within one enclosing function
+				}
+				if n := sgJoin(cur[i], s2); n != cur[i] {
+					cur[i] = n
+					a.dirty = true
+				}
+			}
+		}
 		sm := a.sum[callee]
 		if sm == nil {
 			return
@@ -542,7 +663,46 @@ func (a *signAn) transfer(fn *ssa.Function, b *ssa.BasicBlock, in ssa.Instructio
 
 func isBigValPtr(t types.Type) bool { return isBigPtr(t) }
 
+// closureEscapes: the closure value is used for something other than being called.
+func closureEscapes(f *ssa.Function) bool {
+	par := f.Parent()
+	if par == nil {
+		return true
+	}
+	for _, b := range par.Blocks {
+		for _, in := range b.Instrs {
+			mc, ok := in.(*ssa.MakeClosure)
+			if !ok || mc.Fn != ssa.Value(f) || mc.Referrers() == nil {
+				continue
+			}
+			for _, r := range *mc.Referrers() {
+				switch y := r.(type) {
+				case *ssa.DebugRef:
+				case ssa.CallInstruction:
+					if y.Common().Value != ssa.Value(mc) {
+						return true
+					}
+				default:
+					return true
+				}
+			}
+		}
+	}
+	return false
+}
+
+func rootFn(fn *ssa.Function) *ssa.Function {
+	for fn.Parent() != nil {
+		fn = fn.Parent()
+	}
+	return fn
+}
+
 func (a *signAn) joinElem(fn *ssa.Function, sliceT types.Type, s sg) {
+	fn = rootFn(fn) // closures fill the slices of the function they live in
+	if a.elem[fn] == nil {
+		a.elem[fn] = map[string]sg{}
+	}
 	k := elemBucket(sliceT)
 	old, ok := a.elem[fn][k]
 	n := s
@@ -556,6 +716,7 @@ func (a *signAn) joinElem(fn *ssa.Function, sliceT types.Type, s sg) {
 }
 
 func (a *signAn) elemOf(fn *ssa.Function, sliceT types.Type) sg {
+	fn = rootFn(fn)
 	if s, ok := a.elem[fn][elemBucket(sliceT)]; ok {
 		return s
 	}
@@ -572,7 +733,8 @@ func (a *signAn) sink(fn *ssa.Function, pos token.Pos, name string, s sg, report
 		return
 	}
 	if s.deps != 0 {
-		a.addReq(fn, s.deps, "passed on to "+name+" in "+fn.Name())
+		// inside a closure the dependencies are on the parameters of the enclosing function
+		a.addReq(rootFn(fn), s.deps, "passed on to "+name+" in "+fn.Name())
 	}
 }
 
@@ -678,6 +840,15 @@ func (a *signAn) signOf(fn *ssa.Function, v ssa.Value, st *signState, outs map[*
 		}
 		return sgNN
 	case *ssa.Parameter:
+		if fn.Parent() != nil {
+			// a closure: what its direct calls pass (it must not escape)
+			if args, ok := a.cloArg[fn]; ok {
+				if i := paramIndex(fn, x); i >= 0 && i < len(args) {
+					return args[i]
+				}
+			}
+			return sgAny
+		}
 		if i := paramIndex(fn, x); i >= 0 && i < 32 {
 			return sg{deps: 1 << uint(i)}
 		}
